@@ -5,6 +5,7 @@
    verdicts of the real auth rules for (event, provider contents) pairs, one per line:
    event id, a bar, the sorted provider ids, a bar, 1 or 0. *)
 From Verif Require Import Lib.Bytes StateRes.Event StateRes.Kahn StateRes.V2 StateRes.V1 StateRes.Entry StateRes.V2Spec StateRes.V1Spec StateRes.Wf.
+From Verif Require Import Json.Ast Json.Parse Auth.Types Auth.Versions Auth.Abs Auth.Decide Auth.Model.
 Open Scope N_scope.
 
 Definition idsort (l : list bytes) : list bytes := ssort bytes_cmp l.
@@ -327,6 +328,81 @@ Definition prop_v1_old (args : list bytes) : bytes :=
   | _ => bs "badargs"
   end.
 
+
+(* ====================================================================================
+   End to end: the auth rules are C07's executable model (Auth.Model.allowed_bool) instead of
+   the verdict table - the whole of state resolution runs inside the Coq model.
+   ejson: one JSON text per line, every event of the case with its event_id member.
+   ==================================================================================== *)
+Fixpoint parse_ejson_lines (ls : list bytes) : list (bytes * json) :=
+  match ls with
+  | [] => []
+  | l :: r => match parse_json l with
+              | Some j => (ev_id j, j) :: parse_ejson_lines r
+              | None => parse_ejson_lines r
+              end
+  end.
+Definition parse_ejson (s : bytes) : list (bytes * json) := parse_ejson_lines (split_list c_nl s).
+
+Fixpoint jsons_of (tbl : list (bytes * json)) (l : list event) : list json :=
+  match l with
+  | [] => []
+  | e :: r => match assoc_bytes (e_id e) tbl with
+              | Some j => j :: jsons_of tbl r
+              | None => jsons_of tbl r
+              end
+  end.
+
+Definition allowed_e2e (ver : bytes) (tbl : list (bytes * json)) (e : event) (prov : list event) : bool :=
+  match assoc_bytes (e_id e) tbl with
+  | Some j => allowed_bool ver j (jsons_of tbl prov)
+  | None => false
+  end.
+
+Definition answer_e2e (res : option (list event * list query)) : bytes :=
+  match res with Some (evs, _) => out_sorted evs | None => bs "err" end.
+
+(* [ver; universe; sets; auth; rejected; ejson; event JSONs] *)
+Definition run_resolve_new_e2e (args : list bytes) : bytes :=
+  match args with
+  | [ver; u; sets; auth; rej; ej; _] =>
+      let un := decode_universe u in
+      let tbl := parse_ejson ej in
+      let rejl := parse_ids rej in
+      answer_e2e (resolve_conflicts_new (allowed_e2e ver tbl) (fun k => mem_bytes k rejl) idE idP idG
+                                        ver (parse_sets un sets) (lookup_ids un (parse_ids auth)))
+  | _ => bs "badargs"
+  end.
+
+(* [ver; universe; events; auth; rejected; ejson; event JSONs] *)
+Definition run_resolve_old_e2e (args : list bytes) : bytes :=
+  match args with
+  | [ver; u; evs; auth; rej; ej; _] =>
+      let un := decode_universe u in
+      let tbl := parse_ejson ej in
+      let rejl := parse_ids rej in
+      answer_e2e (resolve_conflicts (allowed_e2e ver tbl) (fun k => mem_bytes k rejl) idE idP idG
+                                    ver (lookup_ids un (parse_ids evs)) (lookup_ids un (parse_ids auth)))
+  | _ => bs "badargs"
+  end.
+
+(* the auth model against the real rules on the queries state resolution makes:
+   [ver; universe; table; ejson; event JSONs] -> one digit per table row *)
+Definition run_allowed_rows (args : list bytes) : bytes :=
+  match args with
+  | [ver; u; tblb; ej; _] =>
+      let un := decode_universe u in
+      let tbl := parse_ejson ej in
+      map (fun row => match row with
+                      | (ev, ids, _) =>
+                          match find_event ev un with
+                          | Some e => flag (allowed_e2e ver tbl e (lookup_ids un (parse_ids ids)))
+                          | None => 63
+                          end
+                      end) (parse_table tblb)
+  | _ => bs "badargs"
+  end.
+
 Definition ops_C10 : list (bytes * (list bytes -> bytes)) :=
   [ (bs "C10.split", run_split);
     (bs "C10.authdiff_new", run_authdiff_new);
@@ -343,4 +419,7 @@ Definition ops_C10 : list (bytes * (list bytes -> bytes)) :=
     (bs "C10.prop.power_order", prop_power_order);
     (bs "C10.prop.mainline_order", prop_mainline_order);
     (bs "C10.prop.v1", prop_v1);
-    (bs "C10.prop.v1_old", prop_v1_old) ].
+    (bs "C10.prop.v1_old", prop_v1_old);
+    (bs "C10.resolve_new_e2e", run_resolve_new_e2e);
+    (bs "C10.resolve_old_e2e", run_resolve_old_e2e);
+    (bs "C10.allowed_rows", run_allowed_rows) ].
